@@ -56,7 +56,7 @@ CONTEXTS = [
     ("setcomp", ["r = {{E} for _q in [0]}"], 0),
     ("if-test", ["if {E} is None:", "    pass"], 0),
     ("ifexp", ["r = {E} if v is not None else 0"], 0),
-    ("fstring", ["r = f\"{{E}}\""], 0),
+    ("fstring", ["r = f\"{({E})}\""], 0),
     ("for-iter", ["for _q in [{E}]:", "    pass"], 0),
     ("while-test", ["while {E} is None:", "    break"], 0),
     ("assert", ["assert {E} is not None or True"], 0),
@@ -71,8 +71,19 @@ CONTEXTS = [
     ("walrus", ["r = (w := {E})"], 0),
     ("compare-chain", ["r = -10 ** 9 <= {E} <= 10 ** 9"], 0),
     ("multiline-call", ["r = max(", "    0,", "    {E},", ")"], 2),
+    ("callee-spanning-lines", ["r = {E}"], 0),        # the call expression itself spans three lines (rendered by ctx_lines)
+    ("operand-spanning-lines", ["r = {E}"], 0),       # the failing operation spans three lines
     ("return-value", ["return {E}"], 0),
 ]
+
+
+def ctx_lines(c, expr):
+    """Source lines of context c around expression expr (the reported line is the first line of the spanning node)."""
+    if c[0] == "callee-spanning-lines" and expr.endswith("(v)"):
+        return ["r = " + expr[:-2], "    v,", ")"]
+    if c[0] == "operand-spanning-lines" and expr == "(1 // v)":
+        return ["r = 1 // (", "    v", ")"]
+    return [ln.replace("{E}", expr) for ln in c[1]]
 CTX_NAMES = [c[0] for c in CONTEXTS]
 # statement wrappers: (name, header lines, indent added, trailer lines)
 WRAPPERS = [
@@ -142,6 +153,8 @@ def gen_spec(r, pid, masked=False, entry="load", depth=None):
         exc = r.choice(sorted(FAULT_EXPR))
     elif exc_style in ("raise", "fresh-cause"):
         exc = r.choice(RAISED)
+        if masked and exc == "StopIteration":
+            exc = "StopAsyncIteration"
     elif exc_style == "user":
         exc = r.choice(sorted(USER_EXC))
     elif exc_style == "assert":
@@ -224,7 +237,7 @@ class Program:
         if style == "expr":
             c = self.context_choice(False)
             self.r = saved
-            lines = [ln.replace("{E}", FAULT_EXPR[exc]) for ln in c[1]]
+            lines = ctx_lines(c, "(" + FAULT_EXPR[exc] + ")")        # parenthesized: the context must not re-associate its operators
             return lines, c[2], {"exc": exc, "fctx": c[0]}
         self.r = saved
         if style == "raise":
@@ -396,8 +409,8 @@ class Program:
                 em.emit("return v", ind + 1)
             c = self.context_choice(allow_return and t == "-" and w[0] == "none")
             start = em.next_line
-            for ln in c[1]:
-                em.emit(ln.replace("{E}", callee["call"]), ind)
+            for ln in ctx_lines(c, callee["call"]):
+                em.emit(ln, ind)
             target.append({"k": "call", "line": start + c[2], "callee": cu["id"], "cctx": c[0], "wrap": w[0]})
             returned = c[0] == "return-value"
             callee["rel"] = em.rel
@@ -419,8 +432,8 @@ class Program:
             first = callee.get("w", callee["u"])
             c = self.context_choice(allow_return and t == "-" and w[0] == "none")
             start = em.next_line
-            for ln in c[1]:
-                em.emit(ln.replace("{E}", self.call_text(callee, em.rel)), ind)
+            for ln in ctx_lines(c, self.call_text(callee, em.rel)):
+                em.emit(ln, ind)
             target.append({"k": "call", "line": start + c[2], "callee": first["id"], "cctx": c[0], "wrap": w[0]})
             returned = c[0] == "return-value"
         if tryst is not None:
@@ -459,8 +472,8 @@ class Program:
                 self.emit_plain(em, 2, w, w["body"])
             c = self.context_choice(False)
             start = em.next_line
-            for ln in c[1]:
-                em.emit(ln.replace("{E}", "fn(v)"), 2)
+            for ln in ctx_lines(c, "fn(v)"):
+                em.emit(ln, 2)
             w["body"].append({"k": "call", "line": start + c[2], "callee": u["id"], "cctx": c[0], "wrap": "none"})
             for _ in range(wl["post"]):
                 self.emit_plain(em, 2, w, w["body"])
